@@ -144,6 +144,7 @@ type w5World struct {
 	parkedDisk []w5Parked
 	takeImage  func(at string)
 	insertsSinceIdle int
+	armedCancel      context.CancelFunc // cancels the context of the write that is about to reach sqlite.do.after_fn
 	mustDrain        bool
 
 	clients []*w5Client
@@ -450,8 +451,15 @@ func (w *w5World) clientLoop(cl *w5Client) {
 func (w *w5World) exec(op *w5Op) {
 	ctx := context.Background()
 	e := w.eng
+	if op.kind == "insert_cancel" {
+		var cancel context.CancelFunc
+		ctx, cancel = context.WithCancel(ctx)
+		defer cancel()
+		w.armedCancel = cancel
+		defer func() { w.armedCancel = nil }()
+	}
 	switch op.kind {
-	case "insert", "insert_fail":
+	case "insert", "insert_fail", "insert_cancel":
 		fail := op.kind == "insert_fail"
 		op.off, _, op.err = e.DoWithOffset(ctx, "test", func(conn Conn, cache []byte) ([]byte, error) {
 			_, err := conn.Exec("test", "INSERT INTO test_db(t) VALUES ($t)", BlobString("$t", op.s))
@@ -465,6 +473,17 @@ func (w *w5World) exec(op *w5Op) {
 			w.execOrder = append(w.execOrder, op.s) // under the engine's connection lock: binlog order
 			return w5Event(op.s, cache), nil
 		})
+		if op.kind == "insert_cancel" && op.err != nil {
+			// refused as a whole: it never happened (this goroutine has not blocked since the engine
+			// rolled the savepoint back, so the entry is still where the callback put it)
+			for i := len(w.execOrder) - 1; i >= 0; i-- {
+				if w.execOrder[i] == op.s {
+					w.execOrder = append(w.execOrder[:i], w.execOrder[i+1:]...)
+					break
+				}
+			}
+			w.failed[op.s] = true
+		}
 	case "read_do":
 		op.err = e.Do(ctx, "test", func(conn Conn, cache []byte) ([]byte, error) {
 			rows := conn.Query("test", "SELECT t FROM test_db ORDER BY id")
@@ -502,6 +521,14 @@ func (w *w5World) collect() {
 		if op.panic != "" {
 			r.Fail("C17", "panic", "panic:"+op.kind, "%s panicked: %s", op.kind, op.panic)
 			return
+		}
+		if op.kind == "insert_cancel" {
+			if op.err != nil {
+				r.Event(fmt.Sprintf("client%d", cl.id), "insert_cancel %s -> err=%v", op.s, w5Err(op.err))
+				r.Probe("write_cancelled_after_callback")
+				continue
+			}
+			op.kind = "insert" // the cancellation came too late to matter: an ordinary write
 		}
 		switch op.kind {
 		case "insert":
@@ -601,6 +628,11 @@ func (w *w5World) phase(dbdir string, nOps int, gated, faulty bool) {
 	// crash points inside the engine: the hitting goroutine holds the connection lock, so the
 	// SQLite files are quiescent while they are copied
 	verifhook.SetOnPoint(func(name string) {
+		if name == "sqlite.do.after_fn" && w.armedCancel != nil {
+			w.armedCancel()
+			w.armedCancel = nil
+			r.Fault("context_cancelled_after_callback")
+		}
 		if strings.HasPrefix(name, "sqlite.") {
 			takeImage(name)
 		}
@@ -680,8 +712,15 @@ func (w *w5World) phase(dbdir string, nOps int, gated, faulty bool) {
 			cl := idle[c.Intn(len(idle), "client")]
 			op := &w5Op{}
 			switch k := c.Intn(8, "opkind"); {
-			case k <= 4:
+			case k <= 3:
 				op.kind = "insert"
+			case k == 4:
+				op.kind = "insert"
+				if c.Intn(2, "cancel_after_callback") == 1 {
+					// the caller's context ends right after the callback returned (hook sqlite.do.after_fn):
+					// the write must fail as a whole - no row, no binlog record - and the engine stays usable
+					op.kind = "insert_cancel"
+				}
 			case k == 5:
 				op.kind = "insert_fail"
 			default:
@@ -690,7 +729,7 @@ func (w *w5World) phase(dbdir string, nOps int, gated, faulty bool) {
 				// busy timeout, which is an artefact of the amalgamation, not of the engine.
 				op.kind = "read_do"
 			}
-			if op.kind == "insert" {
+			if op.kind == "insert" || op.kind == "insert_cancel" {
 				w.insertsSinceIdle++
 			}
 			if strings.HasPrefix(op.kind, "insert") {
